@@ -5,6 +5,15 @@ use super::*;
 use crate::verif_oracle::*;
 use core::iter::Step;
 
+/// Typed raw access to table memory for the mapper harnesses (a `*mut u64` view of a `PageTable` would be
+/// a type-punned access that CBMC resolves with byte-extract operations over the whole 4KiB object).
+pub(crate) fn raw_get(t: &PageTable, i: usize) -> u64 {
+    t.entries[i].entry
+}
+pub(crate) fn raw_set(t: &mut PageTable, i: usize, v: u64) {
+    t.entries[i].entry = v;
+}
+
 const ADDR_MASK: u64 = 0x000f_ffff_ffff_f000; // SDM vol.3A table 4-20: bits 51:12
 /// flag bits the property quantifies over: bits 0-11 and 52-63
 const FLAG_BITS: u64 = 0xfff0_0000_0000_0fff;
